@@ -724,7 +724,16 @@ impl<'tcx> Cx<'tcx> {
 
     fn describe_const_value(&mut self, val: ConstValue, ty: Ty<'tcx>, o: &mut J) {
         let tcx = self.tcx;
-        let text = with_no_trimmed_paths!(format!("{}", MirConst::Val(val, ty)));
+        // rustc's const pretty-printer unwraps the length of a `[u8; N]` whose N is still an unevaluated path
+        // (e.g. `const P: [u8; ALIGNMENT]`): normalize first, and do not print if the length stays symbolic
+        let ty = tcx
+            .try_normalize_erasing_regions(TypingEnv::fully_monomorphized(), Unnormalized::new_wip(ty))
+            .unwrap_or(ty);
+        let printable = match ty.kind() {
+            TyKind::Array(_, n) => n.try_to_target_usize(tcx).is_some(),
+            _ => true,
+        };
+        let text = if printable { with_no_trimmed_paths!(format!("{}", MirConst::Val(val, ty))) } else { format!("<const {}>", with_no_trimmed_paths!(ty.to_string())) };
         o.set("val_s", J::s(text));
         if let TyKind::Adt(adt, _) = ty.kind() {
             if adt.is_enum() || adt.is_struct() {
